@@ -784,7 +784,7 @@ theorem C17_route_loop_is_C03 {ι : Type} (comps : List Bytes) (last : Bytes) (h
       | invalid => rfl
       | skipRoute => rfl
 
-theorem goIndexL_last (xs : List Bytes) (last : Bytes) (h : xs.getLast? = some last) :
+theorem C17_index_last (xs : List Bytes) (last : Bytes) (h : xs.getLast? = some last) :
     goIndexL xs ((xs.length : Int) - 1) = .ok last := by
   have hne : xs ≠ [] := by intro e; simp [e] at h
   have hpos : 1 ≤ xs.length := by
@@ -819,7 +819,7 @@ theorem C17_route_all_is_C03 {ι : Type} (tbl : List (GB.C03.Route ι)) (method 
         obtain ⟨l, h1, h2⟩ := C17_route_loop_is_C03 (GB.C03.splitSlash p) last hne (tbl.filter fun r => r.httpMethod == method)
         refine ⟨some l, ?_, ?_⟩
         · simp only [hp, Bool.not_true, Bool.false_eq_true, ↓reduceIte, hs, bind, Except.bind,
-            goIndexL_last _ last hl, h1]
+            C17_index_last _ last hl, h1]
         · simp only [routeAllResult, hl, h2]
     · have hp : hasPrefix (c :: p) [47] = false := by simp [hasPrefix, List.isPrefixOf, Ne.symm hc]
       refine ⟨none, by simp [hp], ?_⟩
